@@ -21,6 +21,7 @@ func runC10(c *Ctx) {
 	r10_3(c, "R10.3")
 	r10_4(c, "R10.4")
 	r10_5(c, "R10.5")
+	r10_6(c, "R10.7")
 	r04_8(c, "R10.6")
 }
 
@@ -171,10 +172,84 @@ func r10_1(c *Ctx, rule string) {
 		c.ObUnreachable(rule, con+"/needs-verdict", lit, map[string]bool{c.reg(call) + "#0": !prune}, isEx, "pruning (SkipDir)", fmt.Sprintf("the %s matcher's verdict is %v", kind, !prune))
 		c.ObReachable(rule, con+"/live", lit, nil, isEx, "this pruning exit", "nothing is assumed")
 	}
-	c.R.Floor(rule, "pattern-based SkipDir exits", n, 3)
+	// (one exit per matcher at least; how many return statements carry them is a matter of style)
+	c.R.Floor(rule, "pattern-based SkipDir exits", n, 2)
+	c.R.Check(kindCount["include"] >= 1 && kindCount["exclude"] >= 1, rule, c.name(lit)+"/prune-exits-both-matchers", c.P.Pos(lit.Pos()), "both the include and the exclude matcher have a pruning exit", "the include or the exclude matcher no longer has a pruning exit that the rule recognises")
 	// matcher errors are fatal
 	c.ObErrChecked(rule+"/checked", fw.incCall)
 	c.ObErrChecked(rule+"/checked", fw.excCall)
+}
+
+// R10.7: how the two prefix-only flags are computed.
+func r10_6(c *Ctx, rule string) {
+	c.R.Rule(rule, "NewFilterFS: onlyPrefixIncludes can only be cleared by a non-exclusion include pattern and onlyPrefixExcludeExceptions only by an exclusion ('!') exclude pattern; each flag can be cleared")
+	nf := c.Fn(rule, "fsutil.NewFilterFS")
+	if nf == nil {
+		return
+	}
+	var excl []*ssa.Call
+	for _, call := range c.P.CallsTo(nf, "(*github.com/moby/patternmatcher.Pattern).Exclusion") {
+		if cl, ok := call.(*ssa.Call); ok {
+			excl = append(excl, cl)
+		}
+	}
+	c.R.Floor(rule, "Pattern.Exclusion() tests in NewFilterFS", len(excl), 2)
+	if len(excl) == 0 {
+		return
+	}
+	x0 := c.explorer(nf)
+	for _, e := range []struct {
+		field    string
+		polarity bool // the Exclusion() value of the patterns that may clear the flag
+		what     string
+	}{
+		{"fsutil.filterFS.onlyPrefixIncludes", false, "include patterns that are not exclusions"},
+		{"fsutil.filterFS.onlyPrefixExcludeExceptions", true, "exclusion ('!') patterns of the exclude list"},
+	} {
+		stores := fieldStoresIn(nf, e.field)
+		if len(stores) == 0 {
+			c.R.Fail(rule, e.field+"/set", c.P.Pos(nf.Pos()), "NewFilterFS does not set "+e.field)
+			continue
+		}
+		for _, pol := range []bool{!e.polarity, e.polarity} {
+			as := map[string]bool{}
+			for _, cl := range excl {
+				as[x0.KeyAtEntry(cl)] = pol
+			}
+			ex := c.explorer(nf)
+			ex.Assume = as
+			cleared, unknown := 0, 0
+			ex.Target = func(in ssa.Instruction, st *eng.State) bool {
+				s, ok := in.(*ssa.Store)
+				if !ok {
+					return false
+				}
+				for _, fs := range stores {
+					if s == fs {
+						tv, known := ex.Truth(s.Val, st)
+						switch {
+						case !known:
+							unknown++
+						case !tv:
+							cleared++
+						}
+					}
+				}
+				return false
+			}
+			ex.Run()
+			con := fmt.Sprintf("%s/patterns-with-exclusion=%v", strings.TrimPrefix(e.field, "fsutil.filterFS."), pol)
+			if ex.Exhausted {
+				c.R.Undecided(rule, con, c.P.Pos(nf.Pos()), "state limit")
+				continue
+			}
+			if pol != e.polarity {
+				c.R.Check(cleared == 0 && unknown == 0, rule, con, c.pos(stores[0]), "patterns of the other polarity cannot clear the flag", "the flag is computed from patterns of the wrong polarity (it can be cleared although no "+e.what+" exist): pruning is wrongly enabled for the lists that need full matching")
+			} else {
+				c.R.Check(cleared > 0, rule, con, c.pos(stores[0]), "a wildcard among the "+e.what+" clears the flag", "the flag is never cleared by "+e.what+": directories are pruned by literal prefix although a pattern has wildcards")
+			}
+		}
+	}
 }
 
 var kindCount = map[string]int{}
@@ -229,8 +304,14 @@ func r10_3(c *Ctx, rule string) {
 	if fw == nil {
 		return
 	}
-	incField := func(v ssa.Value) bool { o, _, _, ok := eng.LoadedField(v); return ok && strings.HasSuffix(o, ".includeMatchInfo") }
-	excField := func(v ssa.Value) bool { o, _, _, ok := eng.LoadedField(v); return ok && strings.HasSuffix(o, ".excludeMatchInfo") }
+	incField := func(v ssa.Value) bool {
+		o, _, _, ok := eng.LoadedField(v)
+		return ok && strings.HasSuffix(o, ".includeMatchInfo")
+	}
+	excField := func(v ssa.Value) bool {
+		o, _, _, ok := eng.LoadedField(v)
+		return ok && strings.HasSuffix(o, ".excludeMatchInfo")
+	}
 	for _, e := range []struct {
 		name      string
 		call      *ssa.Call
@@ -255,7 +336,7 @@ func r10_3(c *Ctx, rule string) {
 				return
 			}
 			fv := eng.FieldVar(fa.X.Type(), fa.Field)
-			if fv == nil || fv.Name() != e.name+"MatchInfo" {
+			if fv == nil || eng.CanonFieldName(fa.X.Type(), fa.Field) != e.name+"MatchInfo" {
 				return
 			}
 			n++
@@ -425,7 +506,7 @@ func r10_5(c *Ctx, rule string) {
 			return false
 		}
 		fv := eng.FieldVar(fa.X.Type(), fa.Field)
-		if fv == nil || fv.Name() != "calledFn" {
+		if fv == nil || eng.CanonFieldName(fa.X.Type(), fa.Field) != "calledFn" {
 			return false
 		}
 		if _, isIdx := fa.X.(*ssa.IndexAddr); !isIdx {
@@ -475,7 +556,7 @@ func r10_5(c *Ctx, rule string) {
 			return
 		}
 		if fa, ok := s.Addr.(*ssa.FieldAddr); ok {
-			if fv := eng.FieldVar(fa.X.Type(), fa.Field); fv != nil && fv.Name() == "calledFn" {
+			if fv := eng.FieldVar(fa.X.Type(), fa.Field); fv != nil && eng.CanonFieldName(fa.X.Type(), fa.Field) == "calledFn" {
 				if _, isAlloc := fa.X.(*ssa.Alloc); isAlloc {
 					own++
 				}
